@@ -542,7 +542,7 @@ pub fn positions_all_singles_pairs(domain: usize) -> Vec<Pos> {
 pub fn position_stats(p: &[usize], cfg: &Cfg, sh: &Shape) -> (bool, bool, usize) {
     let set: BTreeSet<usize> = p.iter().copied().collect();
     let dup = set.len() < p.len();
-    let row = sh.domain / cfg.folding;
+    let row = (sh.domain / cfg.folding).max(1);
     let folded: BTreeSet<usize> = set.iter().map(|x| x % row).collect();
     let coll = sh.layers > 0 && folded.len() < set.len();
     let last: BTreeSet<usize> = set.iter().map(|x| x % sh.last_domain).collect();
